@@ -292,7 +292,7 @@ def _recv_local(f, op):
 
 
 def d3_spans(chk, F):
-    cl = [g for g in F.region_funcs("cooklang::aisle::parse") if g.is_closure()]
+    cl = [g for g in F.region_funcs("cooklang::aisle::parse") if g.key != "cooklang::aisle::parse"]
     hits = []
     for g in cl:
         e = resolve_place(g, {"l": 0, "p": []})
